@@ -28,7 +28,11 @@ LEVEL_TEXT = ('Theorems (Props/C14.v): for EVERY well-formed UAM-IV file and EVE
               'C14_one3d_single_step_never_opens; a subset of cuts is evaluated in Coq (constructor OD) next to the full Python sweep. '
               'TEMPERATURE and HEIGHT/PRESSURE (Model/TempHp.v, Proofs/TempHpProofs.v; layered record files over the One3d codec; both Memmap readers hand-modelled incl. the for-loop fall-through, the lazy reshapes and the marker check): C14_temperature_every_prefix and C14_temperature_accepts_iff at full strength for the reader as repaired by 9020b2c '
               '(before it the two-record prefix of every file was accepted with fabricated content: former region 14, now a corpus case), '
-              'C14_heightpres_every_prefix and C14_heightpres_accepts_iff at full strength, both reader_local; cuts incl. the two-record prefix evaluated in Coq (TD / HD).')
+              'C14_heightpres_every_prefix and C14_heightpres_accepts_iff at full strength, both reader_local; cuts incl. the two-record prefix evaluated in Coq (TD / HD). '
+              'WIND (Model/Wind.v, Proofs/WindProofs.v; Memmap reader hand-modelled incl. the RecordFile walk of its __init__, with a three-valued result read / raise / never returns): C14_wind_every_prefix_from_first_step (EXACT result for every cut from the first dummy marker on: raises, or presents the '
+              'first k complete steps; trailing partial steps are ignored), C14_wind_first_record_cut_hangs_refuted (every file, every cut from byte 12 to the '
+              'end of the first time record: the reader model diverges) and C14_wind_first_step_cuts_refuted (all cuts of a concrete file classified by '
+              'w_hang_cut) = finding wind-prefix-hangs (region 15). Cuts incl. two hanging ones per file evaluated in Coq (WD), 1 s limit.')
 LEVEL_NOTE = 'Trusted: Coq kernel+vm_compute, py2coq, harness. Met formats other than lateral_boundary: every-prefix sweep judged by the Python oracle only.'
 TECHNIQUE = 'Coq proof (prefix theorem for the reader model) + exhaustive byte-prefix sweep per generated file'
 
